@@ -350,6 +350,13 @@ def r_table(ctx, model):
     ctx.check(eq(df.cols.get("density", 0), CM / (U.NA * ref.V) / GCM3), "cellmass option overrides the table's cell mass", w,
               expected="cellmass/(N_A V) in g/cm^3", found=short(df.cols.get("density", "missing")),
               explanation="--cellmass does not replace the static table's cell mass in the density", key="cellmass")
+    # --cellmass without a static table: the density column is still reported, in g/cm^3, in every mode
+    for interp in ("none", "volume", "pressure"):
+        df, cap = run_main(ctx, model, interp, with_table=False, cellmass=CM / (U.g / U.mol))
+        ref = R(Ev(model), interp)
+        ctx.check(eq(df.cols.get("density", 0), CM / (U.NA * ref.V) / GCM3), f"{interp}: --cellmass without a static table gives the density in g/cm^3", w,
+                  expected="cellmass/(N_A V) in g/cm^3", found=short(df.cols.get("density", "missing")),
+                  explanation="with --cellmass and no static table the density column is missing or not converted to g/cm^3", key=f"cellmass.notable.{interp}")
 
 
 def r_assembly(ctx, model):
